@@ -208,6 +208,13 @@ class Function:
             st.extend(self.bmap[x].pred)
         return body
 
+    def natural_loop_of(self, head):
+        body = set()
+        for t, h in self.back_edges():
+            if h == head:
+                body |= self.natural_loop(t, h)
+        return body
+
     def loops(self):
         """head -> set of blocks (merged natural loops per head)"""
         out = {}
